@@ -6,6 +6,7 @@ after every call.
 """
 import copy
 import json
+import os
 import random
 import sys
 
@@ -86,7 +87,7 @@ def call(fn):
         return {"ok": False, "v": None, "exc": "%s: %s" % (type(e).__name__, str(e)[:100])}
 
 
-def graph(rnd, W, depth, keys, unsup=False):
+def graph(rnd, W, depth, keys, unsup=False, handled=()):
     """An object graph: beans at the top, in lists, in dicts, in lists held by fields of other beans."""
     def value(what):
         if what == "enumidx":
@@ -98,26 +99,37 @@ def graph(rnd, W, depth, keys, unsup=False):
         # a field value: supported types; containers may hold further beans
         r = rnd.random()
         if depth > 0 and r < 0.35:
-            inner = [graph(rnd, W, depth - 1, keys, unsup) for _ in range(rnd.randint(1, 2))]
+            inner = [graph(rnd, W, depth - 1, keys, unsup, handled) for _ in range(rnd.randint(1, 2))]
             return inner if rnd.random() < 0.5 else {"k": inner[0], "n": atom(rnd)}
         if r < 0.5:
             return plain(rnd, 2, sets=True, strkeys=True)
         if unsup and r < 0.6:
+            if rnd.random() < 0.4:
+                # a bean held DIRECTLY by a field: not a supported type - kept only when a handler is registered for its class
+                # (classes that merely INHERIT from a handled class are left out: the field filter is an isinstance test, the
+                # handler lookup an exact-type one - the statement does not say which reading applies to them)
+                ok = [k for k in keys if W.cls[k] in handled or not any(isinstance(t, type) and issubclass(W.cls[k], t) for t in handled)]
+                if ok:
+                    return W.make(rnd.choice(ok), lambda what: rnd.randint(0, 2) if what == "enumidx" else "1.5" if what == "decimal" else atom(rnd))
             return unsupported(rnd)          # neither supported nor handled: the field is omitted, nothing fails
         return atom(rnd)
     r = rnd.random()
     if depth > 0 and r < 0.25:
-        return [graph(rnd, W, depth - 1, keys, unsup) for _ in range(rnd.randint(1, 3))]
+        return [graph(rnd, W, depth - 1, keys, unsup, handled) for _ in range(rnd.randint(1, 3))]
     if depth > 0 and r < 0.4:
-        return {"x": graph(rnd, W, depth - 1, keys, unsup), "y": atom(rnd)}
+        return {"x": graph(rnd, W, depth - 1, keys, unsup, handled), "y": atom(rnd)}
     if depth > 0 and r < 0.45:
-        return (graph(rnd, W, depth - 1, keys, unsup), atom(rnd))
+        return (graph(rnd, W, depth - 1, keys, unsup, handled), atom(rnd))
     return W.make(rnd.choice(keys), value)
 
 
-def record(W, orig, cfgd, mode, config, ignore):
+def record(W, orig, cfgd, mode, config, ignore, dumped=None, fail_first=False):
+    """dumped: outcome of a dump(orig) that was executed elsewhere (under an interleaving) - ("ok", value) | ("exc", text)."""
     rec = {"mode": mode, "CT": W.CT, "cfg": cfgd, "orig": W.enc(orig)}
-    d = call(lambda: jsonclass.dump(orig, ignore=ignore, config=config) if ignore is not None else jsonclass.dump(orig, config=config))
+    if dumped is not None:
+        d = {"ok": dumped[0] == "ok", "v": dumped[1] if dumped[0] == "ok" else None, "exc": "" if dumped[0] == "ok" else dumped[1]}
+    else:
+        d = call(lambda: jsonclass.dump(orig, ignore=ignore, config=config) if ignore is not None else jsonclass.dump(orig, config=config))
     rec["orig_after"] = W.enc(orig)
     rec["dumped"] = {"ok": d["ok"], "v": enc(d["v"]), "exc": d["exc"]}
     if d["ok"]:
@@ -130,6 +142,33 @@ def record(W, orig, cfgd, mode, config, ignore):
                 wire = copy.deepcopy(d["v"])
         except (TypeError, ValueError):
             wire, rec["wire_ok"] = copy.deepcopy(d["v"]), False
+        if fail_first:
+            # the same containers were first handed to a load() that failed below them (a member that cannot be
+            # translated, removed again afterwards): the second load behaves like a first one
+            holders = []
+
+            def walk(v):
+                if isinstance(v, list):
+                    holders.append(v)
+                    for x in v:
+                        walk(x)
+                elif isinstance(v, dict) and "__jsonclass__" not in v:
+                    holders.append(v)
+                    for x in v.values():
+                        walk(x)
+            walk(wire)
+            if holders:
+                h = holders[-1]
+                bad = {"__jsonclass__": ["no.such.module.Cls", []]}
+                if isinstance(h, list):
+                    h.append(bad)
+                else:
+                    h["__verif_bad__"] = bad
+                call(lambda: jsonclass.load(wire, config.classes))
+                if isinstance(h, list):
+                    h.pop()
+                else:
+                    del h["__verif_bad__"]
         rec["loadin"] = enc(wire)
         l = call(lambda: jsonclass.load(wire, config.classes))
         rec["loadin_after"] = enc(wire)
@@ -139,6 +178,25 @@ def record(W, orig, cfgd, mode, config, ignore):
         rec["loadin"] = rec["loadin_after"] = enc(None)
         rec["loaded"] = {"ok": False, "v": enc(None), "exc": "not attempted"}
     return rec
+
+
+def interleaved(W, orig, cfgd, mode, config, ignore, rnd, limit):
+    """dump(orig) with one complete dump() of a structure SHARING its objects (another thread) placed at a line of the
+    library - or of a handler - inside it; both outcomes are recorded and judged like any other dump."""
+    from harness import interleave
+    other = rnd.choice([orig, [orig, orig], {"k": orig, "n": 1}])
+    kw = {"config": config}
+    if ignore is not None:
+        kw["ignore"] = ignore
+    fa = lambda: jsonclass.dump(orig, **kw)
+    fb = lambda: jsonclass.dump(other, **kw)
+    extra = (os.path.abspath(__file__),)
+    out = []
+    for k in interleave.sample_points(interleave.points(fa, extra), limit, rnd):
+        ra, rb, fired = interleave.run(fa, fb, k, extra)
+        out.append(record(W, orig, cfgd, mode, config, ignore, dumped=ra))
+        out.append(record(W, other, cfgd, mode, config, ignore, dumped=rb))
+    return out
 
 
 def handlers_for(W, rnd, keys):
@@ -172,17 +230,27 @@ def run(out, seed, n, mode):
         config.classes = W.config.classes
         if mode == "plain":
             orig = plain(rnd, rnd.randint(0, 4), sets=True, strkeys=rnd.random() < 0.6)
-            recs.append(record(W, orig, {"H": [], "ign": []}, mode, config, None))
+            recs.append(record(W, orig, {"H": [], "ign": []}, mode, config, None, fail_first=(it % 5 == 1)))
+            if it % 8 == 0:
+                recs += interleaved(W, orig, {"H": [], "ign": []}, mode, config, None, rnd, 6)
         elif mode == "beans":
             orig = graph(rnd, W, rnd.randint(0, 2), beans)
             recs.append(record(W, orig, {"H": [], "ign": []}, mode, config, None))
         elif mode == "custom":
             keys = W.plain_keys
             table, H = handlers_for(W, rnd, keys)
-            config.serialize_handlers = table
+            if rnd.random() < 0.5:
+                # the Config has already been used for a dump before the handlers are registered
+                call(lambda: jsonclass.dump(W.make(rnd.choice(keys), lambda what: 1 if what != "decimal" else "1"), config=config))
+                for typ, fn in table.items():
+                    config.serialize_handlers[typ] = fn
+            else:
+                config.serialize_handlers = table
             ign = rnd.sample(["a", "_b", "c", "d", "e", "p", "label", "_D0__c"], rnd.randint(0, 3)) if rnd.random() < 0.7 else None
-            orig = graph(rnd, W, rnd.randint(0, 2), keys + ["PtL", "Color"], unsup=True)
+            orig = graph(rnd, W, rnd.randint(0, 2), keys + ["PtL", "Color"], unsup=True, handled=tuple(table))
             recs.append(record(W, orig, {"H": H, "ign": ["s:" + x for x in (ign or [])]}, mode, config, ign))
+            if it % 8 == 0:
+                recs += interleaved(W, orig, {"H": H, "ign": ["s:" + x for x in (ign or [])]}, mode, config, ign, rnd, 8)
         elif mode == "fail":
             recs.append(record_failure(W, rnd, config, beans))
         elif mode == "rpc":
